@@ -2,10 +2,14 @@ package props
 
 import (
 	"context"
+	"crypto/sha256"
 	"crypto/tls"
+	"crypto/x509"
+	"encoding/pem"
 	"fmt"
 	"os"
 	"path/filepath"
+	"sort"
 	"strings"
 	"time"
 
@@ -382,6 +386,7 @@ func c19Config(run *evid.Run, cfg Cfg, ca, rogue *rig.CA, ci int, noCA bool) {
 		run.Count("source_port_reuse_rounds", reused)
 		run.Distinct(fmt.Sprintf("source port reused by another client: %v", reused > 0))
 	}
+	c19ForgedTickets(run, d, map[bool]string{false: "ca-configured", true: "ca-entry-absent"}[noCA])
 	// The daemon must still be alive and serve the permitted client.
 	if !d.Alive() {
 		run.Violate("daemon died during the credential matrix: "+d.LogTail(800), nil)
@@ -435,4 +440,124 @@ func c19Config(run *evid.Run, cfg Cfg, ca, rogue *rig.CA, ci int, noCA bool) {
 	})
 	run.Count("wallet_store_files", created)
 	_ = oracle.PermTable{}
+}
+
+// c19ForgedTickets: a caller without any certificate from the configured authority tries TLS session resumption
+// with a ticket it minted itself.  It learns the server's certificate by starting a handshake, derives candidate
+// ticket keys from that public material (and a few constants), lets a server of its own - trusting a made-up
+// authority - issue a ticket for a made-up "client1" certificate under each candidate key, and offers that ticket to
+// the daemon.  Being served on such a connection means the daemon took an identity from a ticket anyone can mint.
+func c19ForgedTickets(run *evid.Run, d *rig.Daemon, label string) {
+	// 1. The server's certificate, as any network peer sees it.
+	var leaf []byte
+	probe, err := tls.Dial("tcp", d.Addr, &tls.Config{InsecureSkipVerify: true, MinVersion: tls.VersionTLS13,
+		VerifyPeerCertificate: func(raw [][]byte, _ [][]*x509.Certificate) error {
+			if len(raw) > 0 {
+				leaf = append([]byte{}, raw[0]...)
+			}
+			return nil
+		}})
+	if err == nil {
+		_ = probe.Close()
+	}
+	if leaf == nil {
+		run.Inconclusive("forged tickets: could not obtain the server certificate")
+		return
+	}
+	cert, err := x509.ParseCertificate(leaf)
+	if err != nil {
+		run.Inconclusive("forged tickets: " + err.Error())
+		return
+	}
+	sum := func(parts ...[]byte) [32]byte {
+		h := sha256.New()
+		for _, p := range parts {
+			h.Write(p)
+		}
+		var k [32]byte
+		copy(k[:], h.Sum(nil))
+		return k
+	}
+	pemLeaf := pem.EncodeToMemory(&pem.Block{Type: "CERTIFICATE", Bytes: leaf})
+	var first32 [32]byte
+	copy(first32[:], leaf)
+	keys := map[string][32]byte{
+		"all-zero key":                         {},
+		"first 32 bytes of the certificate":    first32,
+		"sha256(certificate DER)":              sum(leaf),
+		"sha256(certificate PEM)":              sum(pemLeaf),
+		"sha256(public key info)":              sum(cert.RawSubjectPublicKeyInfo),
+		"sha256(subject common name)":          sum([]byte(cert.Subject.CommonName)),
+		"sha256(serial number)":                sum(cert.SerialNumber.Bytes()),
+		"sha256(signature)":                    sum(cert.Signature),
+		"sha256(\"dirk\" + certificate DER)":     sum([]byte("dirk"), leaf),
+		"sha256(product label + certificate)":  sum([]byte("dirk session ticket key"), leaf),
+		"sha256(listen address)":               sum([]byte(d.Addr)),
+	}
+	// 2. A made-up authority and a made-up client1.
+	fakeCA, err := rig.NewCA("made-up-authority")
+	if err != nil {
+		run.Inconclusive(err.Error())
+		return
+	}
+	fakeClient, _ := fakeCA.Issue(rig.CertOpts{CN: "client1"})
+	fakeServer, _ := fakeCA.Issue(rig.CertOpts{CN: "127.0.0.1", IPs: []string{"127.0.0.1"}})
+	pool := x509.NewCertPool()
+	pool.AppendCertsFromPEM(fakeCA.CertPEM)
+	names := make([]string, 0, len(keys))
+	for n := range keys {
+		names = append(names, n)
+	}
+	sort.Strings(names)
+	for _, name := range names {
+		key := keys[name]
+		ln, err := tls.Listen("tcp", "127.0.0.1:0", &tls.Config{Certificates: []tls.Certificate{fakeServer.TLS}, ClientAuth: tls.RequireAndVerifyClientCert,
+			ClientCAs: pool, MinVersion: tls.VersionTLS13, SessionTicketKey: key, NextProtos: []string{"h2"}})
+		if err != nil {
+			run.Inconclusive(err.Error())
+			return
+		}
+		go func() {
+			c, err := ln.Accept()
+			if err != nil {
+				return
+			}
+			_, _ = c.Write([]byte("x")) // completes the handshake and sends the tickets
+			time.Sleep(200 * time.Millisecond)
+			_ = c.Close()
+		}()
+		cache := tls.NewLRUClientSessionCache(4)
+		fc := fakeClient.TLS
+		ccfg := &tls.Config{InsecureSkipVerify: true, MinVersion: tls.VersionTLS13, ClientSessionCache: cache, ServerName: "dirk.target", NextProtos: []string{"h2"},
+			GetClientCertificate: func(*tls.CertificateRequestInfo) (*tls.Certificate, error) { return &fc, nil }}
+		mint, err := tls.Dial("tcp", ln.Addr().String(), ccfg)
+		if err == nil {
+			buf := make([]byte, 1)
+			_, _ = mint.Read(buf) // tickets arrive with the first application data
+			_ = mint.Close()
+		}
+		_ = ln.Close()
+		if _, ok := cache.Get("dirk.target"); !ok {
+			run.Count("forged_ticket_not_minted", 1)
+			continue
+		}
+		// 3. Offer it to the daemon.
+		conn, err := rig.Dial(d.Addr, ccfg, "")
+		if err != nil {
+			continue
+		}
+		ctx, cancel := context.WithTimeout(context.Background(), 5*time.Second)
+		lres, lerr := pb.NewListerClient(conn).ListAccounts(ctx, &pb.ListAccountsRequest{Paths: []string{"Wallet1"}})
+		sres, serr := pb.NewSignerClient(conn).Sign(ctx, &pb.SignRequest{Id: &pb.SignRequest_Account{Account: "Wallet1/acct19"}, Data: Root32(1), Domain: Dom([]byte{9, 0, 0, 0}, 1)})
+		cancel()
+		_ = conn.Close()
+		run.Eval(1)
+		run.Count("forged_ticket_attempts", 1)
+		served := (lerr == nil && len(lres.GetAccounts()) > 0) || (serr == nil && len(sres.GetSignature()) > 0)
+		run.Distinct(fmt.Sprintf("forged session ticket under %s (%s) -> served=%v", name, label, served))
+		if served {
+			run.Violate(fmt.Sprintf("a caller with no certificate from the configured authority was served (accounts listed: %d, signature: %v) after resuming a TLS session with a ticket it minted itself under the key %s (%s)",
+				len(lres.GetAccounts()), len(sres.GetSignature()) > 0, name, label), map[string]any{"ticket_key": name, "config": label})
+		}
+	}
 }
